@@ -4,7 +4,7 @@ tier="${1:-quick}"; shift
 ids="$@"; [ -z "$ids" ] && ids="C01 C02 C03 C04 C05 C06 C07 C08 C09 C10 C11 C12 C13 C14 C15 C16 C17 C18 C19 C20"
 for p in $ids; do
   s=$(date +%s)
-  out=$(/venv/bin/python /verif/run.py check $p --tier $tier 2>&1); rc=$?
+  out=$(/venv/bin/python "$(dirname "$0")/../run.py" check $p --tier $tier 2>&1); rc=$?
   echo "$out" | grep -E "^VIOLATION|^KNOWN|^C[0-9]+ |BROKEN|Traceback|TIMEOUT" | cut -c1-300
   echo "exit=$rc ($p) $(( $(date +%s) - s ))s"
 done
